@@ -563,6 +563,28 @@ func runC11(c *ctx) {
 		b := r.bytes()
 		cid(c, b, dialCfgs[c.rng.Intn(len(dialCfgs))], standardPlans(c, len(b), c.thor && i%40 == 0))
 	}
+	// lines many times longer than the read buffer whose END matters for the outcome (the selected
+	// subprotocol / accepted extension parameters come last)
+	for _, np := range []int{30, 60, 400} {
+		var ps []string
+		for k := 0; k < np; k++ {
+			ps = append(ps, fmt.Sprintf("p%d", k))
+		}
+		r := baseReq()
+		r.lines = append(canonLines(""), "Sec-WebSocket-Protocol: "+strings.Join(ps, ", "))
+		req := r.bytes()
+		last := ps[np-1]
+		plans := standardPlans(c, len(req), false)
+		if np == 400 {
+			plans = []chunkPlan{{0, 0, nil}, {16, 16, []int{1000}}, {64, 0, []int{7}}, {256, 0, nil}, {4096, 256, []int{3, 5, 7}}}
+		}
+		ciu(c, req, ucfg{proto: &[]string{last}}, plans)
+		rr := baseResp()
+		rr.lines = append(rr.lines, "Sec-WebSocket-Extensions: foo; a="+strings.Repeat("v", np*4)+"; tail=1, bar; x=1")
+		rr.trailing = []byte("\x81\x01z")
+		b := rr.bytes()
+		cid(c, b, dialCfgs[3], plans)
+	}
 	// (c) debug wrappers
 	for i := 0; i < 40; i++ {
 		r := baseReq()
